@@ -23,7 +23,7 @@ HERE = os.path.dirname(os.path.abspath(__file__))
 INVS = {
     "C12": ["NoWriteAfterClose", "ClosedOnce", "WriterExclusiveT", "OrderedExactT", "RegistryConsistent"],
     "C13": ["SharedIffSameKey", "StartOncePerLivePeriod", "NoStaleInit", "NoStaleDetach", "NoStaleUpdater", "NoLateInit",
-            "Quiescent", "CancelledWhenDone", "RegistryConsistent"],
+            "Quiescent", "CancelledWhenDone", "RegistryConsistent", "DetachedContext"],
 }
 
 
@@ -70,7 +70,7 @@ def _tla_bool(b):
 
 def trace_cfg(prop, soft, flags):
     return """CONSTANTS
-  NS = 2
+  NS = 3
   MaxEvents = 3
   MaxTerm = 99
   MaxSrcTerm = 99
@@ -82,6 +82,7 @@ def trace_cfg(prop, soft, flags):
   FixDetach = %s
   FixUpdater = %s
   CfgOK <- CfgAll
+  RaceTolerant <- TraceTolerant
   Soft = %s
   Prop = "%s"
 SPECIFICATION TraceSpec
@@ -95,7 +96,7 @@ CHECK_DEADLOCK FALSE
 
 def gen_cfg(name, **kw):
     """Write a Gen_Subs cfg into the spec copy used by ctx.tlc (done through `extra` spec dir)."""
-    d = dict(NS=2, MaxEvents=1, MaxTerm=1, MaxSrcTerm=1, MaxHB=0, UseD="FALSE", StartModes="StartOK", CfgOK="CfgRace", MaxProbes=0, SeqSetup="TRUE")
+    d = dict(NS=2, MaxEvents=1, MaxTerm=1, MaxSrcTerm=1, MaxHB=0, UseD="FALSE", StartModes="StartOK", CfgOK="CfgRace", MaxProbes=0, SeqSetup="TRUE", AllowCloseSub="FALSE")
     d.update(kw)
     d.update({k: _tla_bool(v) for k, v in fix_flags().items()})
     return """CONSTANTS
@@ -111,6 +112,7 @@ def gen_cfg(name, **kw):
   FixDetach = %(FixDetach)s
   FixUpdater = %(FixUpdater)s
   CfgOK <- %(CfgOK)s
+  AllowCloseSub = %(AllowCloseSub)s
   MaxProbes = %(MaxProbes)s
   SeqSetup = %(SeqSetup)s
 SPECIFICATION GenSpec
@@ -131,16 +133,21 @@ def spec_dir(ctx, cfgs):
     return d
 
 
-def to_schedule(tag, idx, b, kv):
+KVS = ["input", "hdr", "payload"]            # how two trigger ids are made different
+FKS = ["num-static", "num-var", "arr-var", "true-var", "false-var", "str-var"]   # how an "odd" filter value is written
+
+
+def to_schedule(tag, idx, b, kv, fk="num-static"):
     n = len(b["key"])
+    fetch = b.get("fetch") or [False] * n
     return {"id": "%s-%06d" % (tag, idx), "nopark": [],
-            "subs": [{"key": b["key"][i], "filt": b["filt"][i], "conn": b["conn"][i]} for i in range(n)],
-            "kv": kv, "start": list(b["start"]), "steps": b["steps"],
+            "subs": [{"key": b["key"][i], "filt": b["filt"][i], "conn": b["conn"][i], "fetch": bool(fetch[i])} for i in range(n)],
+            "kv": kv, "fk": fk, "start": list(b["start"]), "steps": b["steps"],
             "predicted": {"wdata": b.get("wdata"), "wafter": b.get("wafter"), "stale": b.get("stale"), "late": b.get("late")}}
 
 
 def sched_hash(s):
-    return lib.sha([s["subs"], s["kv"], s["start"], s["steps"]])
+    return lib.sha([s["subs"], s["kv"], s.get("fk"), s["start"], s["steps"]])
 
 
 def nontrivial(s):
@@ -163,13 +170,13 @@ def generate(ctx, tag, cfgtext, rng, cap=None, simulate=None, depth=None, timeou
     g = ctx.tlc_must_pass(["conc", d], "Gen_Subs", "Gen_Subs_%s.cfg" % tag, **kw)
     uniq = {}
     for b in g.printed:
-        uniq[lib.sha([b["key"], b["filt"], b["conn"], b["start"], b["steps"]])] = b
+        uniq[lib.sha([b["key"], b["filt"], b["conn"], b["start"], b.get("fetch"), b["steps"]])] = b
     beh = [uniq[k] for k in sorted(uniq)]
     total = len(beh)
     if cap is not None and len(beh) > cap:
         rng.shuffle(beh)
         beh = beh[:cap]
-    scheds = [to_schedule(tag, i, b, rng.choice(["input", "hdr"])) for i, b in enumerate(beh)]
+    scheds = [to_schedule(tag, i, b, rng.choice(KVS), rng.choice(FKS)) for i, b in enumerate(beh)]
     ctx.log("%s: %d distinct behaviours generated, %d chosen" % (tag, total, len(scheds)))
     return scheds, total
 
